@@ -9,7 +9,8 @@ THEOREMS = ['Bluebell.C12_more_indented_opens_one', 'Bluebell.C12_same_indent_sa
             'Bluebell.C12_less_indented_not_deeper', 'Bluebell.C12_depth_chain', 'Bluebell.C12_top_is_indent',
             'Bluebell.C12_consistent_depth_eq_level', 'Bluebell.C12_scale_invariant',
             'Bluebell.C12_tab_is_spaces', 'Bluebell.C12_blank_around',
-            'Bluebell.C12_counterexample_first_line', 'Bluebell.C12_counterexample_between_levels']
+            'Bluebell.C12_counterexample_first_line', 'Bluebell.C12_counterexample_between_levels',
+            'Bluebell.C12_trailing_spaces', 'Bluebell.C12_trailing_spaces_same_document']
 IND, DED = '\x0e', '\x0f'
 
 
